@@ -336,6 +336,20 @@ pub fn u_nul(_tier: Tier) -> Vec<Universe> {
                     extra_sentences: vec![],
                     });
                 }
+                // astral characters whose low 16 bits coincide with a SPACE / categorised / lexicon
+                // code point: they are still "above U+FFFF" and must not alias the BMP character
+                out.push(Universe {
+                    name: format!("nul-alias/{nm}/{tn}/{xname}"),
+                    dict: d.clone(),
+                    alphabet: vec!['a', '\u{10020}', '\u{10061}', 'b', ' '],
+                    opts: vec![
+                        Opts { ignore_space: false, mgl: 0 },
+                        Opts { ignore_space: true, mgl: 1 },
+                    ],
+                    k1: false,
+                    mapping: None,
+                    extra_sentences: vec![],
+                });
                 out.push(Universe {
                     name: format!("nul/{nm}/{tn}/{xname}"),
                     dict: d,
